@@ -663,6 +663,7 @@ type GhostDecl struct {
 }
 
 type Lemma struct {
+	Axiom     bool
 	Pkg       string
 	Name      string
 	Params    []Param
@@ -703,7 +704,7 @@ type cline struct {
 	line int
 }
 
-var clauseKeywords = map[string]bool{"package": true, "spec": true, "ghost": true, "lemma": true, "func": true, "requires": true, "ensures": true,
+var clauseKeywords = map[string]bool{"package": true, "spec": true, "ghost": true, "lemma": true, "axiom": true, "func": true, "requires": true, "ensures": true,
 	"modifies": true, "decreases": true, "loop": true, "use": true, "trusted": true, "pure": true, "assert": true, "shared": true, "induct": true, "panicfree": true, "goimpl": true}
 
 func firstWord(s string) string {
@@ -738,7 +739,7 @@ func joinContinuations(lines []cline) []cline {
 func splitLabel(s string) (string, string) {
 	s = strings.TrimSpace(s)
 	i := 0
-	for i < len(s) && (unicode.IsLetter(rune(s[i])) || unicode.IsDigit(rune(s[i])) || s[i] == '_' || s[i] == '.' || s[i] == '-') {
+	for i < len(s) && (unicode.IsLetter(rune(s[i])) || unicode.IsDigit(rune(s[i])) || s[i] == '_' || s[i] == '.' || s[i] == '-' || s[i] == '+') {
 		i++
 	}
 	if i > 0 && i < len(s) && s[i] == ':' && (i+1 >= len(s) || s[i+1] != ':') {
@@ -883,7 +884,7 @@ func (cs *Contracts) Parse(lines []cline, pkg string) {
 			}
 			ret := p.typeText()
 			cs.Ghosts[n.s] = &GhostDecl{Pkg: pkg, Name: n.s, Params: ps, Ret: ret}
-		case "lemma":
+		case "lemma", "axiom":
 			cur = nil
 			p, err := newParser(rest)
 			if err != nil {
@@ -900,7 +901,7 @@ func (cs *Contracts) Parse(lines []cline, pkg string) {
 				fail(l, err)
 				continue
 			}
-			curLemma = &Lemma{Pkg: pkg, Name: n.s, Params: ps, File: l.file, Line: l.line}
+			curLemma = &Lemma{Pkg: pkg, Name: n.s, Params: ps, File: l.file, Line: l.line, Axiom: kw == "axiom"}
 			cs.Lemmas[n.s] = curLemma
 		case "func":
 			curLemma = nil
